@@ -696,6 +696,14 @@ def strip(t):
             if hit is None:
                 return t
             t = hit
+        elif t[0] == 'cindex' and len(t) > 2 and isinstance(t[2], int):
+            # an element read back from an array literal that was just built (`let [a, b] = [x, y];`)
+            base = strip(t[1])
+            # (not for a constant-initialised buffer such as `[0u32; 3]` written out: that one is filled in place later)
+            if base[0] == 'array' and t[2] < len(base[1]) and not all(e[0] == 'const' for e in base[1]):
+                t = base[1][t[2]]
+            else:
+                return t
         else:
             return t
 
